@@ -288,6 +288,70 @@ func coreNatives() map[string]stubFn {
 		"(time.Time).String": func(m *Machine, c *frame, fn *ssa.Function, a []Value) Value {
 			return sym.Var(m.freshName("timestr"), sym.StrSort)
 		},
+		// zones and text forms, for CONCRETE instants only: the real time package
+		// does the work (a zone is carried in the flag word: 1 = UTC, zoneBase+offset
+		// = a fixed zone); symbolic instants have no text form in the model
+		"time.FixedZone": func(m *Machine, c *frame, fn *ssa.Function, a []Value) Value {
+			off := m.term(a[1])
+			if !off.Const {
+				m.unsupported("time.FixedZone with a symbolic offset")
+			}
+			p := new(Value)
+			*p = zero(m.eng.nativeType("time.Location"))
+			m.natives[p] = m.newNative("zone", int(off.SInt()))
+			return p
+		},
+		"(time.Time).In": func(m *Machine, c *frame, fn *ssa.Function, a []Value) Value {
+			st := a[0].(Struct)
+			lp, _ := a[1].(*Value)
+			off := 0
+			if lp != nil {
+				if n := m.natives[lp]; n != nil {
+					off, _ = n.Data.(int)
+				}
+			}
+			nz, _ := timeParts(a[0])
+			if !nz.Const || !nz.IsTrue() {
+				return a[0]
+			}
+			return Struct{sym.BVConst(64, uint64(timeZoneBase+off)), st[1], (*Value)(nil)}
+		},
+		"(time.Time).MarshalText": func(m *Machine, c *frame, fn *ssa.Function, a []Value) Value {
+			t := m.concreteTime(a[0], "Time.MarshalText")
+			b, err := t.MarshalText()
+			if err != nil {
+				return Tuple{[]Value(nil), m.newErrorString(sym.Str(err.Error()))}
+			}
+			return Tuple{bytesOf(string(b)), Iface{}}
+		},
+		"(time.Time).Format": func(m *Machine, c *frame, fn *ssa.Function, a []Value) Value {
+			t := m.concreteTime(a[0], "Time.Format")
+			l := m.term(a[1])
+			if !l.Const {
+				m.unsupported("Time.Format with a symbolic layout")
+			}
+			return sym.Str(t.Format(l.S))
+		},
+		"(*time.Time).UnmarshalText": func(m *Machine, c *frame, fn *ssa.Function, a []Value) Value {
+			data := m.concreteBytes(a[1], "Time.UnmarshalText")
+			var t time.Time
+			if err := t.UnmarshalText(data); err != nil {
+				return m.newErrorString(sym.Str(err.Error()))
+			}
+			store(m.deref(c, a[0]), m.timeValueOf(t))
+			return Iface{}
+		},
+		"time.Parse": func(m *Machine, c *frame, fn *ssa.Function, a []Value) Value {
+			l, v := m.term(a[0]), m.term(a[1])
+			if !l.Const || !v.Const {
+				m.unsupported("time.Parse of symbolic text")
+			}
+			t, err := time.Parse(l.S, v.S)
+			if err != nil {
+				return Tuple{m.mkTime(sym.False(), sym.BVConst(64, 0)), m.newErrorString(sym.Str(err.Error()))}
+			}
+			return Tuple{m.timeValueOf(t), Iface{}}
+		},
 		"(time.Duration).String": func(m *Machine, c *frame, fn *ssa.Function, a []Value) Value {
 			d := m.term(a[0])
 			if d.Const {
@@ -830,4 +894,38 @@ func init() {
 	natives["github.com/multiformats/go-multihash.Sum"] = func(m *Machine, c *frame, fn *ssa.Function, a []Value) Value {
 		return Tuple{[]Value(nil), m.newErrorString(sym.Str("hashing is outside the model"))}
 	}
+}
+
+const timeZoneBase = 1000000
+
+// concreteTime rebuilds the real time.Time behind a concrete model value.
+func (m *Machine) concreteTime(v Value, what string) time.Time {
+	st := v.(Struct)
+	flag, ns := st[0].(*sym.Term), st[1].(*sym.Term)
+	if !flag.Const || !ns.Const {
+		m.unsupported("%s of a symbolic instant (text forms exist for concrete instants only)", what)
+	}
+	if flag.U == 0 {
+		return time.Time{}
+	}
+	t := time.Unix(0, ns.SInt()).UTC()
+	if flag.U >= timeZoneBase-86400 {
+		off := int(int64(flag.U) - timeZoneBase)
+		if off != 0 {
+			t = t.In(time.FixedZone("", off))
+		}
+	}
+	return t
+}
+
+func (m *Machine) timeValueOf(t time.Time) Value {
+	if t.IsZero() {
+		return m.mkTime(sym.False(), sym.BVConst(64, 0))
+	}
+	_, off := t.Zone()
+	flag := uint64(1)
+	if off != 0 {
+		flag = uint64(timeZoneBase + off)
+	}
+	return Struct{sym.BVConst(64, flag), sym.BVConst(64, uint64(t.UnixNano())), (*Value)(nil)}
 }
